@@ -159,9 +159,14 @@ def api_post_async(w, action, params):
         return resp.status_code, {"__text__": data.decode("utf-8", "replace")[:200]}
 
 
-def api_sites(typ, sm_names, exec_names, vias=("api", "raw", "raw-unnamed", "sync")):
+OTHER_ROLE = "arn:aws:iam::987654321098:role/other"      # a role of another account
+
+
+def api_sites(typ, sm_names, exec_names, vias=("api", "raw", "raw-unnamed", "sync"), rerole=False):
     """Machines created and executions started through the real API / as raw events; every
-    identifier met afterwards.  Returns (observations, stats)."""
+    identifier met afterwards.  rerole: the machine's roleArn is first changed (UpdateStateMachine)
+    to a role of another account -- the machine's ARN keeps the account it was created with.
+    Returns (observations, stats)."""
     obs = []
     stats = collections.Counter()
     w = W.World(tag="c17")
@@ -175,11 +180,15 @@ def api_sites(typ, sm_names, exec_names, vias=("api", "raw", "raw-unnamed", "syn
             obs.append(obs_valid(0, smn, True, "CreateStateMachine"))
             sm = body["stateMachineArn"]
             obs.append(dict(obs_parse(0, sm), where="CreateStateMachine"))
+            if rerole:
+                st, body = w.api("UpdateStateMachine", {"stateMachineArn": sm, "roleArn": OTHER_ROLE})
+                if st != 200:
+                    stats["rerole-refused"] += 1
             via_of, sm_of, name_of, rec_of = {}, {}, {}, {}
             w.rec.events.clear()
             for en in exec_names:
                 for via in vias:
-                    rcp = {"group": "api", "type": typ, "sm": smn, "exec": en, "via": via}
+                    rcp = {"group": "api", "type": typ, "sm": smn, "exec": en, "via": via, "rerole": rerole}
                     if via == "api":
                         st, b = w.api("StartExecution", {"stateMachineArn": sm, "name": en, "input": "{}"})
                         obs.append(obs_valid(0, en, st == 200, "StartExecution"))
@@ -386,7 +395,7 @@ def replay_case(rp):
     r = o.get("recipe") or rp.get("recipe") or {}
     g = r.get("group")
     if g == "api":
-        obs, _ = api_sites(r["type"], [r["sm"]], [r["exec"]], vias=(r["via"],))
+        obs, _ = api_sites(r["type"], [r["sm"]], [r["exec"]], vias=(r["via"],), rerole=r.get("rerole", False))
     elif g == "crash":
         obs, _ = crash_sites(r["type"], r["sm"], r["exec"], frames=(r["frame"],))
     elif g == "backstop":
@@ -514,6 +523,7 @@ def run(tier_name=None, replay=None):
     try:
         for typ in ("STANDARD", "EXPRESS"):
             take(api_sites(typ, sm_names, ex_names), "api-" + typ)
+            take(api_sites(typ, sm_names[:2], ex_names[:2], rerole=True), "api-rerole-" + typ)
         # names the API must refuse (and every two-character string): CreateStateMachine / StartExecution
         refuse_pool = BAD_NAMES + [s for s in all_strings(2) if s]
         w = W.World(tag="c17")
